@@ -11,7 +11,7 @@
    primitives (C01/Premises.v): open after seal gives the plaintext, 16-byte tag, base64
    round trip and alphabet, the MAC is a non-empty byte string. *)
 From Kit Require Import C01.Sem C01.Concrete C01.ConcreteOk C01.Proofs_Segments C01.Proofs_Manifest
-     C01.Proofs_Header C01.Proofs_Roundtrip C01.ConcreteOk2 C01.Proofs_Concrete.
+     C01.Proofs_Header C01.Proofs_Roundtrip C01.ConcreteOk2 C01.Proofs_Concrete C01.Proofs_Oracle.
 
 (* The segment loop shared by Encrypt and Decrypt, for EVERY read script that ends in EOF
    (whatever the sizes of the reads, with zero-length reads, with data delivered together
@@ -131,6 +131,17 @@ Theorem C01_key_missing :
     decrypt_stream C v S H unwrap [] sc = DecCallError DEKeyMissing.
 Proof. exact decrypt_key_missing. Qed.
 Print Assumptions C01_key_missing.
+
+(* The boolean oracle the correspondence check evaluates on what Encrypt was OBSERVED to produce
+   decides the spec predicate: the observed document is byte for byte the one the README
+   prescribes for (options, file key, nonce prefix, wrapped key, plaintext) and the independent
+   decoder written from the README recovers the plaintext from it. *)
+Theorem C01_oracle_sound :
+  forall (C : crypto) (S : nat) (o : enc_opts) (fk np wfk p d : list N),
+    enc_oracle C S o fk np wfk p d = true <->
+    (encrypt_spec C S o fk np wfk p = Some d /\ decrypt_spec C S fk d = Some p).
+Proof. exact enc_oracle_sound. Qed.
+Print Assumptions C01_oracle_sound.
 
 From Coq Require Import String.
 Local Open Scope string_scope.
